@@ -129,7 +129,8 @@ NetOf(s, k) ==
                        v_free |-> RParse(Tab(VFreeT, u + k)), a |-> IF intA THEN RQ(2, 1) ELSE RParse(Tab(AT, u + k)),
                        beta |-> CASE cls = 1 -> One [] cls = 2 -> RParse(Tab(PairBetaT, j)) [] OTHER -> RParse(Tab(BetaT, j + k)),
                        ctl |-> c.ctl, vsl |-> c.vsl,
-                       alpha |-> IF c.ctl THEN RQ(1, 10) ELSE Zero]],
+                       \* non-compliance factor: usually 1/10, exactly zero on every third (link, variant) pair
+                       alpha |-> IF c.ctl /\ (j + k) % 3 # 0 THEN RQ(1, 10) ELSE Zero]],
       origins |-> [id \in {OrigId(a) : a \in {a \in 1..s.n : s.orig[a] # NoneK}} |->
                    LET a == CHOOSE a \in 1..s.n : OrigId(a) = id
                    IN [node |-> NodeId(a), kind |-> IF s.orig[a] = "ramp" THEN Tab(RampSeq, a + k) ELSE s.orig[a],
